@@ -3,6 +3,10 @@
 IDS = ['A', 'B', 'My', 'Ns', 'Sub', 'IApi', 'IHal', 'T', 'Result', 'x', '_p', 'a1', 'Acme', 'Toaster', 'Z9_']
 TYPES = ['int', 'std::string', 'Sub::T', 'size_t', '::My::Data<int>', '', ' unsigned int ', '\n    struct { int a; }\n', 'long long\t', '  size_t', ' ']   # data values are kept exactly as written
 FIELDS = ['Ok', 'Fail', 'Error', 'x', '_']
+TYPES += ['a\\b', '"s"', "char'", 'x$y', 'std::map<int, std::string>', 'é*', 'hw::frame*', '/*c*/int']
+# import and file names are kept exactly as written, whatever characters, separators or case they use
+PATHS = ['ITimer.dzn', 'a/b.dzn', '', './Toaster.dzn', 'x.dzn', 'models\\Toaster.dzn', '..\\lib\\Types.dzn', 'a\\b/c.dzn', './x/../y.dzn', ' spaced name.dzn',
+         'Ünï.dzn', 'UPPER.DZN', 'dir/', '"q".dzn', 'a//b.dzn', 'C:\\m\\x.dzn', 'x.dzn ', '~/m.dzn', 'a.b.c.dzn', '.dzn', '/abs/m.dzn', 'tab\there.dzn']
 
 
 def ids(rng, lo=1, hi=3):
@@ -54,9 +58,9 @@ def decl(rng, depth, maxdepth):
     if k < 0.80:
         return ['extern', ids(rng, 1, 1), rng.choice(TYPES)]
     if k < 0.86:
-        return ['import', rng.choice(['ITimer.dzn', 'a/b.dzn', ''])]
+        return ['import', rng.choice(PATHS)]
     if k < 0.91:
-        return ['file', rng.choice(['./Toaster.dzn', 'x.dzn'])]
+        return ['file', rng.choice(PATHS)]
     if k < 0.96:
         return ['unknown', rng.choice(['bogus', 'behavior', 'Component', 'interfaces', ''])]
     return ['junk', rng.choice([1, 'str', None, [1, 2], True, 2.5, []])]
